@@ -306,9 +306,10 @@ def foreach_clause(ck, r, tier):
 def foreach_items_clause(ck, r, tier):
     """Aggregation of the iterations of a forEach step: each item decides its own outcome (a ValueFunction
     whose preconditions turn the item into Ok / Skip / Retry(delay, message) / PermFail(message)); the
-    step's — and, with one step, the Workflow's — outcome must be the combination of the items' outcomes:
-    most severe class, longest delay among the Retry items, every message of the winning class, and the
-    same class/delay for the items in any order."""
+    step's — and, with one step, the Workflow's — outcome must be the combination of the items' ERROR
+    outcomes: PermFail if an item failed, else Retry with the longest delay if an item waits (every message
+    of the winning class kept), else Ok (the list of per-item values); the same class/delay for the items
+    in any order."""
     import celpy
     import koreo_util as ku
     from cluster import Cluster
@@ -372,7 +373,10 @@ def foreach_items_clause(ck, r, tier):
         winners = [it for it in items if it["kind"] == top]
         if len(winners) > 1 or len({it["kind"] for it in items}) > 1:
             ck.nontriv(json.dumps(["foreach-items", items], sort_keys=True))
-        want = cls_name.get(top, top)
+        # the forEach aggregation is an ERROR combination (reconcile.py: only Retry / PermFail items are combined);
+        # when no item is waiting or failed the step is Ok with the list of per-item values (a skipped item is a
+        # value in that list), so the expected class is Ok then
+        want = cls_name.get(top, top) if top in ("retry", "perm") else "ok"
         case = {"items": items, "workflow_outcome": got, "workflow_outcome_items_shuffled": got_p}
         bad = None
         if got["c"] != want:
